@@ -1,7 +1,7 @@
 """coq/Gen/C09.v: pattern strings and constants of the current sources that Lexer/Model.v was written for.
 
 An edit of Django's tag_re pattern, of the delimiters, of the take-until patterns of _detailed_tag_parser or a
-different str.isspace set breaks the `*_anchor` Examples of coq/Lexer/Proofs.v (a proof obligation of C09).
+different str.isspace set breaks the `*_anchor` Examples of coq/Lexer/Wf.v (a proof obligation of C09).
 """
 import common as C
 from gen_constants import generator
